@@ -11,7 +11,7 @@
 
    base64 is a parameter (section variables); the extracted runner instantiates
    it with Model/Base64.v.  No proofs in this file. *)
-From Oras Require Import Base.Prelude Generated.GC18.
+From Oras Require Import Base.Prelude Generated.GC18 Model.Utf8.
 
 Definition colon : N := 58.
 Definition slash : N := 47.
@@ -79,7 +79,15 @@ Inductive result :=
 Inductive op :=
 | Get (a : str)
 | Put (a : str) (c : cred)
-| Delete (a : str).
+| Delete (a : str)
+| SetCs (s : str).     (* Config.SetCredentialsStore (called by DynamicStore.Put) *)
+
+(* FileStore.Put accepts: validateCredentialFormat (no colon in the username; the
+   tokens, which are written as JSON strings, are valid UTF-8) and a server
+   address that is valid UTF-8 (it becomes a JSON object key).  Username and
+   password travel base64-encoded and may hold any bytes. *)
+Definition put_accepts (a : str) (c : cred) : bool :=
+  negb (contains colon (c_user c)) && valid_utf8 a && valid_utf8 (c_refresh c) && valid_utf8 (c_access c).
 
 Record mem := { m_content : fdoc; m_cache : list (str * entry); m_cs : str }.
 
@@ -191,6 +199,30 @@ Section Model.
                 end
     end.
 
+  (* ---------- reading a file: encoding/json decodes object keys and the strings
+     it interprets into Go strings, LOSSILY (Model/Utf8.v [sanitize]): a lone
+     surrogate escape becomes U+FFFD.  This happens to the top-level keys, the
+     auths keys and credsStore; raw values (json.RawMessage) keep their text.
+     [open_store] works on documents whose strings already are Go strings;
+     [open_file] is NewFileStore on the document as it is on disk. ---------- *)
+  Definition decode_tval (v : tval) : tval :=
+    match v with
+    | TRaw raw k => TRaw raw k
+    | TAuths l => TAuths (map (fun ae => (sanitize (fst ae), snd ae)) l)
+    | TCs s => TCs (sanitize s)
+    end.
+  Definition decode_doc (d : fdoc) : fdoc :=
+    map (fun kv => (sanitize (fst kv), decode_tval (snd kv))) d.
+
+  Definition open_file (f : option fdoc) : option state :=
+    match f with
+    | None => open_store None
+    | Some d => match open_store (Some (decode_doc d)) with
+                | Some st => Some {| st_mem := st_mem st; st_file := Some d |}
+                | None => None
+                end
+    end.
+
   (* ---------- saveFile: the document that is marshalled ---------- *)
   Definition saved_doc (m : mem) : fdoc :=
     set configFieldAuths (TAuths (m_cache m))
@@ -209,7 +241,7 @@ Section Model.
     match o with
     | Get a => (st, get_cache (m_cache m) a)
     | Put a c =>
-        if contains colon (c_user c) then (st, RErrBadCred)
+        if negb (put_accepts a c) then (st, RErrBadCred)
         else (save {| m_content := m_content m;
                       m_cache := set a (entry_of_cred c) (m_cache m);
                       m_cs := m_cs m |}, ROk)
@@ -218,6 +250,7 @@ Section Model.
         | None => (st, ROk)
         | Some _ => (save {| m_content := m_content m; m_cache := del a (m_cache m); m_cs := m_cs m |}, ROk)
         end
+    | SetCs s => (save {| m_content := m_content m; m_cache := m_cache m; m_cs := s |}, ROk)
     end.
 
   Fixpoint run (st : state) (h : list op) : state :=
@@ -251,8 +284,9 @@ Section Model.
   Definition saves (st : state) (o : op) : bool :=
     match o with
     | Get _ => false
-    | Put _ c => negb (contains colon (c_user c))
+    | Put a c => put_accepts a c
     | Delete a => match lookup a (m_cache (st_mem st)) with Some _ => true | None => false end
+    | SetCs _ => true
     end.
 
   (* ---------- concurrency: threads are sequences of operations; every
@@ -292,8 +326,9 @@ End Model.
 Definition mem_step (m : list (str * cred)) (o : op) : list (str * cred) * result :=
   match o with
   | Get a => (m, RCred (match lookup a m with Some c => c | None => empty_cred end))
-  | Put a c => if contains colon (c_user c) then (m, RErrBadCred) else (set a c m, ROk)
+  | Put a c => if negb (put_accepts a c) then (m, RErrBadCred) else (set a c m, ROk)
   | Delete a => (del a m, ROk)
+  | SetCs _ => (m, ROk)
   end.
 
 Fixpoint mem_results (m : list (str * cred)) (h : list op) : list result :=
@@ -303,7 +338,7 @@ Fixpoint mem_results (m : list (str * cred)) (h : list op) : list result :=
   end.
 
 Definition op_addr (o : op) : str :=
-  match o with Get a | Put a _ | Delete a => a end.
+  match o with Get a | Put a _ | Delete a => a | SetCs _ => [] end.
 
 (* ---------- history: Load before the fix "a config file holding JSON null no
    longer makes Put panic".  json.Decode of the document `null` left
